@@ -138,6 +138,28 @@ def check(ctx):
     cr = ctx.model.module("dask/bag/core.py").func("_count_references")
     ok = bool(find("counts[o.key] += 1", cr)) and any(isinstance(n, ast.If) and eqv(n.test, "isinstance(o, TaskRef)") for n in ast.walk(cr)) and bool(find("stack.extend(o.args)", cr))
     ctx.ob("EFFECT.lazify.count-multiplicity", cr, "_count_references counts every TaskRef occurrence (with multiplicity), descending through task arguments", ok, "" if ok else "counting distinct dependencies says 1 for b.map(f, b): the shared node is lazified again")
+    # ---------------- round 4b (C48-m7): Bag.var -- ddof rescales the WHOLE population variance
+    from ..lib import eqv as _e4
+    va4 = ctx.model.module("dask/bag/chunk.py").func("var_aggregate")
+    rets4 = [r for r in ast.walk(va4) if isinstance(r, ast.Return)]
+    ok = len(rets4) == 1
+    if ok:
+        rv4 = rets4[0].value
+        m4 = None
+        for pat4 in ("M_v * n / (n - ddof)", "M_v * (n / (n - ddof))", "n / (n - ddof) * M_v", "n * M_v / (n - ddof)"):
+            m4 = Pat(pat4).match(rv4)
+            if m4 is not None:
+                break
+        ok = m4 is not None
+        if ok:
+            v4 = m4["M_v"]
+            if isinstance(v4, ast.Name):
+                d4 = [a for a in ast.walk(va4) if isinstance(a, ast.Assign) and _e4(a.targets[0], v4.id)]
+                v4 = d4[0].value if len(d4) == 1 else None
+            ok = v4 is not None and any(_e4(v4, t) for t in ("x2 / n - (x / n) ** 2", "x2 / n - x / n * (x / n)", "x2 / n - x * x / (n * n)", "x2 / n - x ** 2 / n ** 2"))
+        else:
+            ok = any(_e4(rv4, t) for t in ("(x2 - x * x / n) / (n - ddof)", "(x2 - x ** 2 / n) / (n - ddof)", "(x2 - x / n * x) / (n - ddof)"))
+    ctx.ob("ALG.var.ddof-rescale", rets4[0] if rets4 else va4, "var_aggregate returns (x2/n - (x/n)**2) * n/(n - ddof)", ok, "" if ok else "ddof applied to the sum of squares only: Bag.var/std are wrong for every ddof != 0")
 
 
 VARIANTS = [
